@@ -344,6 +344,28 @@ func c11GetState(f *ast.File) (string, error) {
 	}
 	tp := fn.Type.TypeParams.List[0].Names[0].Name
 	l := fn.Body.List
+	// `if v, ok := h.state.(S); ok { return A }; R…`  =  `v, ok := h.state.(S); if !ok { R… }; return A`
+	for i, st := range l {
+		is, isIf := st.(*ast.IfStmt)
+		if !isIf || is.Else != nil || len(is.Body.List) != 1 || i+1 >= len(l) {
+			continue
+		}
+		as, isAs := is.Init.(*ast.AssignStmt)
+		if !isAs || as.Tok != token.DEFINE || len(as.Lhs) != 2 || len(as.Rhs) != 1 || c11Ident(is.Cond) == "" || c11Ident(is.Cond) != c11Ident(as.Lhs[1]) {
+			continue
+		}
+		if _, isTA := as.Rhs[0].(*ast.TypeAssertExpr); !isTA {
+			continue
+		}
+		ret, isRet := is.Body.List[0].(*ast.ReturnStmt)
+		if _, endsInRet := l[len(l)-1].(*ast.ReturnStmt); !isRet || !endsInRet {
+			continue
+		}
+		nl := append([]ast.Stmt{}, l[:i]...)
+		nl = append(nl, as, &ast.IfStmt{Cond: &ast.UnaryExpr{Op: token.NOT, X: as.Lhs[1]}, Body: &ast.BlockStmt{List: l[i+1:]}}, ret)
+		l = nl
+		break
+	}
 	if len(l) != 6 {
 		return "", fmt.Errorf("getState: %d statements, the translated shape has 6", len(l))
 	}
